@@ -264,3 +264,195 @@ func isParamOrSpill(v ssa.Value, g *ssa.Function) bool {
 	}
 	return false
 }
+
+// ---------------------------------------------------------------- R01.11 the database filter never removes a transaction bracket
+
+// cmdNameKnown reads what a path knows about the command name of the decoded
+// stream command (result 0 of ParseArgs): isOther - the path established that the
+// name equals a constant outside names; excl[n] - the path established that the
+// name differs from n. Comparisons with == / != / switch and strings.EqualFold
+// against a constant are read.
+func cmdNameKnown(p *core.Path, isCmd func(ssa.Value) bool, names ...string) (isOther bool, isOne bool, excl map[string]bool) {
+	excl = map[string]bool{}
+	in := func(s string) bool {
+		for _, n := range names {
+			if strings.EqualFold(n, s) {
+				return true
+			}
+		}
+		return false
+	}
+	note := func(s string, equal bool) {
+		switch {
+		case equal && in(s):
+			isOne = true
+		case equal:
+			isOther = true
+		case in(s):
+			excl[strings.ToLower(s)] = true
+		}
+	}
+	for _, f := range p.Conds {
+		if cm, ok := core.FactCmp(f); ok && (cm.Op == token.EQL || cm.Op == token.NEQ) {
+			x, y := p.Resolve(cm.X), p.Resolve(cm.Y)
+			if s, isS := core.ConstString(core.Unwrap(y)); isS && isCmd(x) {
+				note(s, cm.Op == token.EQL)
+			} else if s, isS := core.ConstString(core.Unwrap(x)); isS && isCmd(y) {
+				note(s, cm.Op == token.EQL)
+			}
+			continue
+		}
+		call, ok := core.Unwrap(p.Resolve(f.Cond)).(*ssa.Call)
+		if !ok || core.ResolveCall(call).Name != "strings.EqualFold" || len(call.Call.Args) != 2 {
+			continue
+		}
+		a, b := p.Resolve(call.Call.Args[0]), p.Resolve(call.Call.Args[1])
+		if s, isS := core.ConstString(core.Unwrap(b)); isS && isCmd(a) {
+			note(s, f.Val)
+		} else if s, isS := core.ConstString(core.Unwrap(a)); isS && isCmd(b) {
+			note(s, f.Val)
+		}
+	}
+	return
+}
+
+// ruleBypassKeepsBrackets: MULTI and EXEC name no database. The parser's
+// database filter is a flag that is recomputed at every SELECT of the stream
+// and, while set, removes what follows; a transaction (or script) of the source
+// may SELECT inside its MULTI ... EXEC block. If the flag removes brackets, a
+// block that enters or leaves a filtered database reaches the sender with one
+// bracket only, and the sender's transaction state machine - which leaves the
+// "in transaction" state at an EXEC and nowhere else - stays in it: in plain
+// mode the next MULTI of the source is sent to the target as a command and its
+// EXEC is swallowed, so the target connection stays inside an open MULTI and
+// every later write is only QUEUED; in transactional mode the next batch
+// carries a nested MULTI and the replay aborts (W40).
+//
+// Condition: on every path of one iteration of the parser loop that drops the
+// decoded command while the database-filter flag is set and no other documented
+// reason for a removal holds, the path has established that the command is
+// neither MULTI nor EXEC.
+func ruleBypassKeepsBrackets(w *core.World, r *core.Report) {
+	const name = "(*syncer.RedisOutput).parseAofCommand"
+	const cons = "parseAofCommand/db-filter-keeps-brackets"
+	f := fn(w, r, name)
+	if f == nil {
+		return
+	}
+	sb := chanParam(f)
+	var dec ssa.Instruction
+	for _, s := range core.SitesNamed(f, false, "pkg/redis/client.MustDecodeOpt") {
+		dec = s.Instr
+	}
+	if dec == nil {
+		r.Unresolved(cons, "decode call not found")
+		return
+	}
+	head := core.LoopHeadOf(dec.Block())
+	if head == nil || sb == nil {
+		r.Unresolved(cons, "decode loop or command channel not found")
+		return
+	}
+	isCmd := isResultOf("pkg/redis/client.ParseArgs", 0)
+	bad := ""
+	var badPos token.Pos
+	byFlag := 0
+	okEnum := core.EnumPaths(head, 0, 200000, func(p *core.Path) {
+		if !p.Closed || bad != "" {
+			return
+		}
+		decoded := false
+		for _, in := range p.Instrs {
+			if in == dec {
+				decoded = true
+			}
+		}
+		if !decoded {
+			return
+		}
+		for _, in := range p.Instrs {
+			switch x := in.(type) {
+			case *ssa.Send:
+				if isParam(sb)(x.Chan) || isParam(sb)(p.Resolve(x.Chan)) {
+					return
+				}
+			case *ssa.Select:
+				for k, st := range x.States {
+					if st.Dir == types.SendOnly && (isParam(sb)(st.Chan) || isParam(sb)(p.Resolve(st.Chan))) {
+						kk := int64(k)
+						if p.Holds(token.EQL, func(v ssa.Value) bool {
+							e, ok := v.(*ssa.Extract)
+							return ok && e.Index == 0 && e.Tuple == ssa.Value(x)
+						}, isConstInt(kk)) {
+							return
+						}
+					}
+				}
+			}
+		}
+		// a dropping path: is the database-filter flag set on it, and is it the only reason?
+		var flagPos token.Pos
+		flagSet, other := false, false
+		for _, fct := range p.Conds {
+			cv := core.Unwrap(p.Resolve(fct.Cond))
+			if !fct.Val {
+				if isResultOf("(*syncer.RedisOutput).selectDB", 1)(cv) {
+					other = true
+				}
+				continue
+			}
+			if call, ok := cv.(*ssa.Call); ok {
+				n := core.ResolveCall(call).Name
+				if core.MatchName(n, "*RedisKeyFilter).FilterCmd") {
+					other = true
+				}
+				if n == "strings.EqualFold" {
+					for _, a := range call.Call.Args {
+						if s, ok := core.ConstString(a); ok && s == "__sentinel__:hello" {
+							other = true
+						}
+					}
+				}
+			}
+			if isResultOf("*RedisKeyFilter).FilterCmdKey", 1)(cv) {
+				other = true
+			}
+			if fromDb, calls := flagOnlyFromFilterDb(w, cv); fromDb && calls > 0 {
+				flagSet = true
+				if fct.If != nil {
+					flagPos = fct.If.Pos()
+				}
+				if flagPos == token.NoPos {
+					flagPos = fct.Cond.Pos()
+				}
+			}
+		}
+		if !flagSet || other {
+			return
+		}
+		byFlag++
+		isOther, _, excl := cmdNameKnown(p, isCmd, "multi", "exec")
+		if isOther || (excl["multi"] && excl["exec"]) {
+			return
+		}
+		var open []string
+		for _, n := range []string{"multi", "exec"} {
+			if !excl[n] {
+				open = append(open, strings.ToUpper(n))
+			}
+		}
+		if flagPos == token.NoPos {
+			flagPos = lastDecisionPos(p)
+		}
+		bad, badPos = fmt.Sprintf("a decoded command is dropped because the database-filter flag (set by the last SELECT of the stream) is set, on a loop path that has not ruled out that the command is %s: the brackets name no database, and a source transaction that SELECTs a filtered database between its MULTI and its EXEC (or leaves one) reaches the sender with one bracket only; the sender's transaction state can only be left at an EXEC, so the target connection stays inside an open MULTI and every later write is merely QUEUED (plain mode), or the next batch nests a MULTI and the replay aborts (transactional mode)", strings.Join(open, " or ")), flagPos
+	})
+	if !okEnum {
+		r.Undecided(cons, head.Instrs[0].Pos(), "too many paths through the parser loop")
+		return
+	}
+	if byFlag == 0 {
+		r.Fail(cons, head.Instrs[0].Pos(), "no loop path of the parser drops a command on the strength of the database-filter flag alone: the flag was not recognised (a boolean carried round the loop whose only sources are FilterDb results and the constant false)")
+		return
+	}
+	r.Check(bad == "", cons, badPos, "%s", bad)
+}
